@@ -9,12 +9,17 @@
    after stop (midicat also tolerates Close while listening).
    Every step yields the expected return value `ret` and the expected deliveries `dlv` (sequence of
    [l |-> listener id, m |-> message]).                                                                 *)
-EXTENDS Integers, Sequences
+EXTENDS Integers, Sequences, FiniteSets
 
-P0 == [inOpen |-> FALSE, outOpen |-> FALSE, active |-> 0, lastL |-> 0]
+\* messages: 1..127 a note-on with that key; 248 timing clock; 254 active sensing; 240 a short sysex.
+\* listen options of the active listener (C14): opts == [sysex, as, tc]; a message of a class whose option is off is filtered
+AllOpts == [sysex |-> TRUE, as |-> TRUE, tc |-> TRUE]
+PassesOpts(o, m) == /\ (m = 254 => o.as) /\ (m = 248 => o.tc) /\ (m = 240 => o.sysex)
+
+P0 == [inOpen |-> FALSE, outOpen |-> FALSE, active |-> 0, lastL |-> 0, opts |-> AllOpts]
 
 Enabled(Kind, s, call) ==
-  CASE call.fn = "Listen"  -> s.active = 0
+  CASE call.fn \in {"Listen", "ListenOpts"}  -> s.active = 0
     [] call.fn = "Stop"    -> s.lastL # 0
     [] call.fn = "CloseIn" -> Kind = "midicat" \/ s.active = 0
     [] call.fn = "OpenInFail"  -> ~s.inOpen       \* the backing process cannot be started
@@ -30,11 +35,13 @@ PStep(Kind, s, call) ==
     [] call.fn \in {"OpenInFail", "OpenOutFail"} -> [s |-> s, ret |-> "err", dlv |-> <<>>]    \* reported, nothing changes, no call hangs
     [] call.fn = "OpenOut"  -> [s |-> [s EXCEPT !.outOpen = TRUE], ret |-> "nil", dlv |-> <<>>]
     [] call.fn = "CloseOut" -> [s |-> [s EXCEPT !.outOpen = FALSE], ret |-> "nil", dlv |-> <<>>]
-    [] call.fn = "Listen"   -> [s |-> [s EXCEPT !.inOpen = TRUE, !.active = s.lastL + 1, !.lastL = s.lastL + 1],   \* ListenTo opens the port
+    [] call.fn = "Listen"   -> [s |-> [s EXCEPT !.inOpen = TRUE, !.active = s.lastL + 1, !.lastL = s.lastL + 1, !.opts = AllOpts],   \* ListenTo opens the port
+                                ret |-> "nil", dlv |-> <<>>]
+    [] call.fn = "ListenOpts" -> [s |-> [s EXCEPT !.inOpen = TRUE, !.active = s.lastL + 1, !.lastL = s.lastL + 1, !.opts = call.opts],
                                 ret |-> "nil", dlv |-> <<>>]
     [] call.fn = "Stop"     -> [s |-> [s EXCEPT !.active = 0], ret |-> "nil", dlv |-> <<>>]
     [] call.fn = "Send"     -> [s |-> s, ret |-> IF s.outOpen THEN "nil" ELSE "closed",
-                                dlv |-> IF Delivers(Kind, s) THEN <<[l |-> s.active, m |-> call.m]>> ELSE <<>>]
+                                dlv |-> IF Delivers(Kind, s) /\ PassesOpts(s.opts, call.m) THEN <<[l |-> s.active, m |-> call.m]>> ELSE <<>>]
 
 \* ---- judging an observed step (trace validation) ----------------------------------------------------------
 \* sequential send: deliveries exactly as expected.  Concurrent senders (fn = "SendPar", msgs = one queue per sender,
@@ -44,12 +51,13 @@ IsSubSeqOf(q, d) ==   \* q's elements occur in d in this order (all messages are
      \E a, b \in 1..Len(d) : a < b /\ d[a] = q[i] /\ d[b] = q[j]
 
 ParOk(Kind, s, call, rets, got) ==
-  LET all == UNION { {q[i] : i \in 1..Len(q)} : q \in {call.msgs[k] : k \in 1..Len(call.msgs)} } IN
+  LET all == { m \in UNION { {q[i] : i \in 1..Len(q)} : q \in {call.msgs[k] : k \in 1..Len(call.msgs)} } : PassesOpts(s.opts, m) } IN
   /\ \A i \in 1..Len(rets) : rets[i] = IF s.outOpen THEN "nil" ELSE "closed"
   /\ IF Delivers(Kind, s)
-       THEN /\ Len(got) = Len(rets)
+       THEN /\ Len(got) = Cardinality(all)
             /\ {got[i].m : i \in 1..Len(got)} = all
             /\ \A i \in 1..Len(got) : got[i].l = s.active
-            /\ \A k \in 1..Len(call.msgs) : IsSubSeqOf(call.msgs[k], [i \in 1..Len(got) |-> got[i].m])
+            /\ \A k \in 1..Len(call.msgs) :
+                 IsSubSeqOf(SelectSeq(call.msgs[k], LAMBDA m : PassesOpts(s.opts, m)), [i \in 1..Len(got) |-> got[i].m])
        ELSE got = <<>>
 =============================================================================
